@@ -30,6 +30,15 @@ type OCSPCase struct {
 }
 
 func genOCSP(t *rapid.T) OCSPCase {
+	c := genOCSPRaw(t)
+	// bound the work of one case (real OCSP round trips under the race detector): at most 16000 lookups in total
+	if c.Threads*c.Lookups > 16000 {
+		c.Lookups = 16000 / c.Threads
+	}
+	return c
+}
+
+func genOCSPRaw(t *rapid.T) OCSPCase {
 	return OCSPCase{
 		Threads: rapid.SampledFrom([]int{2, 4, 8, 16, 16}).Draw(t, "threads"),
 		CacheUS: rapid.SampledFrom([]int{200, 1000, 2000, 2000, 5000, 20000}).Draw(t, "cache"),
@@ -144,10 +153,31 @@ func runOCSPScenario(c OCSPCase) (res childResult) {
 		wg.Wait()
 		close(done)
 	}()
-	select {
-	case <-done:
-	case <-time.After(4 * world.DefaultWatchdog):
-		fail("OCSP lookups did not finish")
+	// no overall time budget (thousands of real OCSP round trips under the race detector on a busy machine are slow, not
+	// wrong): a single call that does not return is reported by its own watchdog; here only a complete standstill counts
+	progress := func() int {
+		mu.Lock()
+		defer mu.Unlock()
+		n := 0
+		for _, v := range counts {
+			n += v
+		}
+		return n
+	}
+	last, lastChange := progress(), time.Now()
+wait:
+	for {
+		select {
+		case <-done:
+			break wait
+		case <-time.After(500 * time.Millisecond):
+			if n := progress(); n != last {
+				last, lastChange = n, time.Now()
+			} else if time.Since(lastChange) > 3*world.DefaultWatchdog {
+				fail("OCSP lookups came to a standstill: no call returned for %v", time.Since(lastChange).Round(time.Second))
+				break wait
+			}
+		}
 	}
 	if _, err := world.Call("Cleanup", world.DefaultWatchdog, func() int { chk.Cleanup(); return 0 }); err != nil {
 		fail("Cleanup never returned: %v", err)
@@ -183,7 +213,7 @@ var ocspSpec = ev.Spec[OCSPCase]{
 	ID:  "C13",
 	Gen: genOCSP,
 	Run: runOCSPCase,
-	Rule: "OCSP lookups concurrently with cache expiry: 2..16 goroutines look up the same certificate 300..4000 times each (optionally mixed with a second certificate whose responder always answers revoked) through the public IsRevoked while default_cache_duration is 0.2..20 ms (the responder sends no nextUpdate), so the cached response keeps running out, is deleted, re-fetched and evicted by the cache's timer; optionally another validator instance is provisioned and cleaned up meanwhile (its Cleanup flushes the process-wide cache) and the responder flips good/revoked. Own child process per case, built with -race. Oracles: every call returns within the watchdog, no panic, the race log is empty, verdicts are ones a sequential order allows (second certificate always revoked; first certificate ok, or revoked only if the responder flips; never an error while the responder is reachable). Non-trivial: the responder was asked more than once (the cache expired during the run).",
+	Rule: "OCSP lookups concurrently with cache expiry: 2..16 goroutines look up the same certificate 300..4000 times each (at most 16000 lookups per case) (optionally mixed with a second certificate whose responder always answers revoked) through the public IsRevoked while default_cache_duration is 0.2..20 ms (the responder sends no nextUpdate), so the cached response keeps running out, is deleted, re-fetched and evicted by the cache's timer; optionally another validator instance is provisioned and cleaned up meanwhile (its Cleanup flushes the process-wide cache) and the responder flips good/revoked. Own child process per case, built with -race. Oracles: every call returns within the watchdog, no panic, the race log is empty, verdicts are ones a sequential order allows (second certificate always revoked; first certificate ok, or revoked only if the responder flips; never an error while the responder is reachable). Non-trivial: the responder was asked more than once (the cache expired during the run).",
 	Assumptions: []string{"schedules are sampled, not enumerated"},
 }
 
